@@ -41,18 +41,20 @@ type Part struct {
 
 // EnvData is what the envelope of a message must carry.
 type EnvData struct {
-	Date                                time.Time // zero: no Date field
-	Subject                             string    // unfolded value
-	HasSubject                          bool
-	From, Sender, ReplyTo, To, Cc, Bcc  []Addr
-	InReplyTo                           []string // ids without <>
-	MessageID                           string
+	Date                               time.Time // zero: no Date field
+	Subject                            string    // unfolded value
+	HasSubject                         bool
+	From, Sender, ReplyTo, To, Cc, Bcc []Addr
+	InReplyTo                          []string // ids without <>
+	MessageID                          string
 }
 
 type Addr struct{ Name, Mailbox, Host string }
 
 func (p *Part) IsMultipart() bool { return p.Type == "multipart" }
-func (p *Part) IsMessage() bool   { return p.Type == "message" && (p.Sub == "rfc822" || p.Sub == "global") }
+func (p *Part) IsMessage() bool {
+	return p.Type == "message" && (p.Sub == "rfc822" || p.Sub == "global")
+}
 
 // HeaderBytes returns the raw header including the terminating blank line.
 func (p *Part) HeaderBytes() []byte {
